@@ -115,7 +115,7 @@ def _run_main(ctx):
             rows3 = P.table(ctx, fnp, ['class'])
             got = [(x.cond_strs(), x.value_str()) for x in rows3]
             want3 = [(['class ~ amq_protocol::protocol::AMQPClass::Connection(_)', 'class.Connection.0 ~ %sAMQPMethod::%s(_)' % (CONN, ty)], 'Ok(class.Connection.0.%s.0)' % ty), (['class ~ not amq_protocol::protocol::AMQPClass::Connection(%sAMQPMethod::%s(_))' % (CONN, ty)], FU)]
-            r.eq('TryFromAmqpClass:%s' % ty, got, want3, ctx.site(fnp))
+            r.eq('TryFromAmqpClass:%s' % ty, sorted(got), sorted(want3), ctx.site(fnp))
 
     with ctx.rule('R16.2', 'result mapping after the handshake loop', floor=5) as r:
         fnp = 'io_loop::IoLoop::run_amqp_handshake'
